@@ -424,6 +424,75 @@ def check(case, rec):
     rec.nontrivial(d >= 2 and mixed and expl)
 
 
+# ---------------------------------------------------------------- tensors without declared shape that grow
+
+@st.composite
+def grown_cases(draw):
+    d = draw(st.sampled_from([1, 2, 2, 3]))
+    shape = [draw(st.integers(2, 4)) for _ in range(d)]
+    rank_ids = draw(st.permutations(ID_POOL))[:d]
+    fspec = {}
+    for r in rank_ids:
+        rs = draw(rank_spec())
+        if rs is not None:
+            fspec[r] = rs
+    tree = draw(noisy_tree(shape, 0))
+    # later writes, some of them beyond the extent the tensor had when it was built
+    writes = [([draw(st.integers(0, s + 2)) for s in shape], draw(st.sampled_from([0, 5, 7])))
+              for _ in range(draw(st.integers(1, 3)))]
+    return {"rank_ids": rank_ids, "shape": shape, "tree": tree, "fspec": fspec, "writes": writes,
+            "route": draw(st.sampled_from(["fiber", "ref"])), "between": draw(st.booleans())}
+
+
+def check_grown(case, rec):
+    """No shape is declared: "the shape" of an uncompressed rank is what the tensor reports, i.e. the extent of
+    the rank's fibers as they are NOW.  Only stored fibers are asked about (the shape of an absent fiber of such
+    a rank is not defined by the statement)."""
+    rank_ids, d = list(case["rank_ids"]), len(case["rank_ids"])
+    tspec = {"rank_ids": rank_ids, "shape": case["shape"], "default": 0, "auth": False, "tree": case["tree"]}
+    t = build.build_tensor(tspec, case["route"])
+    given = copy.deepcopy(case["fspec"])
+    full = fill(case["fspec"], rank_ids)
+    fm = Format(t, given)
+
+    def survey(tag):
+        raw = observe.tree_of(t.getRoot())
+        levels = fibers_per_level(raw, d)
+        est = [max([model.tuplify(c) + 1 for n in levels[i] for c, _ in n] or [0]) for i in range(d)]
+        ctx = f"tree={raw} extent={est} rank_ids={rank_ids} spec={case['fspec']}{tag}"
+        if list(t.getShape()) != est:
+            # (C14's subject; without it the footprints below have no defined value)
+            raise Violation("shape-estimate", f"getShape() = {t.getShape()}, the fibers extend to {est}; {ctx}")
+        want_ranks = [full[rank_ids[i]]["rhbits"] + sum(fiber_fp(full, rank_ids, est, i, len(n)) for n in levels[i])
+                      for i in range(d)]
+        for i, r in enumerate(rank_ids):
+            _expect("getRank", fm.getRank(r), want_ranks[i], f"rank {r}; {ctx}")
+        _expect("getTensor", fm.getTensor(), full["root"]["hbits"] + full["root"]["pbits"] + sum(want_ranks), ctx)
+
+        def stored_prefixes(node, lvl, prefix):
+            yield prefix, node, lvl
+            if lvl < d - 1:
+                for c, ch in node:
+                    yield from stored_prefixes(ch, lvl + 1, prefix + (model.tuplify(c),))
+        for prefix, node, lvl in stored_prefixes(raw, 0, ()):
+            _expect("getFiber", fm.getFiber(*prefix), fiber_fp(full, rank_ids, est, lvl, len(node)),
+                    f"point={prefix} (stored, rank {rank_ids[lvl]}); {ctx}")
+        return est
+
+    est0 = survey("") if case["between"] else None
+    for pt, v in case["writes"]:
+        ref = t.getPayloadRef(*pt)
+        ref <<= v
+    est1 = survey(" (after writes beyond the extent at construction)")
+    fmts = [full[r]["format"] for r in rank_ids]
+    grew = any(pt[i] >= case["shape"][i] for pt, _ in case["writes"] for i in range(d))
+    rec.cls("grew-beyond-construction", grew)
+    rec.cls("surveyed-before-growth", est0 is not None)
+    rec.cls("has-U-rank", "U" in fmts)
+    rec.cls(f"depth{d}")
+    rec.nontrivial(grew and "U" in fmts and bool(case["tree"]))
+
+
 def _pin_p37():
     t = Tensor(rank_ids=["M", "K"])                      # no shape declared, nothing stored
     fm = Format(t, {"M": {"format": "C"}, "K": {"format": "U", "fhbits": 7, "cbits": 100, "pbits": 1000}})
@@ -443,6 +512,7 @@ PARTS = [
                          "leaf absent / explicit default / 5, x every C/U assignment per rank, place-value bit widths, "
                          "all partial points"),
     Part("random", cases(), check, n_quick=3000, n_thorough=12000),
+    Part("grown", grown_cases(), check_grown, n_quick=800, n_thorough=4000),
 ]
 
 
